@@ -571,6 +571,20 @@ func (w *World) converterArms(fi *FuncInfo) []convArm {
 				} else if isGleeceCallee(cn) && !strings.Contains(cn, "logger") {
 					arm.Parse = append(arm.Parse, "call:"+cn)
 				}
+				// a new function handed over as a value (the accept-predicate of a shared loop): what it
+				// parses is what the arm parses
+				for _, a := range x.Args {
+					if id, ok := ast.Unparen(a).(*ast.Ident); ok {
+						if f, ok := info.Uses[id].(*types.Func); ok {
+							if nm := shortFuncName(f); w.isNewName(nm) && !busy[nm] {
+								if h := w.Funcs[nm]; h != nil && h.Decl.Body != nil {
+									busy[nm] = true
+									collectIn(h.Pkg.TypesInfo, h.Decl.Body, arm, busy)
+								}
+							}
+						}
+					}
+				}
 			case *ast.AssignStmt:
 				for _, l := range x.Lhs {
 					if se, ok := l.(*ast.SelectorExpr); ok {
